@@ -64,6 +64,7 @@ class TableOracle:
         self.cur = None
         self.max_table = 0
         self.seen_successors = set()
+        self.waiting = {}
         self.keep = []
         world.monitors.append(self)
 
@@ -123,6 +124,25 @@ class TableOracle:
                     return self.viol('successor_not_registered_once', {'count': n, 'state': st},
                                      f'{N}: IKE_SA {sa.my_spi.hex()} is {st} and its successor is in the table {n} times')
                 self._r('rekeyed_once')
+        # ---- an IKE_SA whose request is never answered ends by retransmission timeout (2+4+6+8 s and a tick) and leaves the table: the same
+        #      request outstanding for more than 34 s means the IKE_SA will stay listed for ever
+        seen = set()
+        for sa in tab:
+            if sa.state.name.endswith('_REQ_SENT'):
+                k = (N, node.incarnation, id(sa))
+                seen.add(k)
+                last = next((x['data'] for x in reversed(self.wire.by_sender.get(N, [])[-40:]) if x['h'] is not None and not x['h']['R']
+                             and sa.my_spi in (x['h']['spi_i'], x['h']['spi_r']) and x['h']['id'] == sa.my_msg_id), b'')
+                curk = (sa.state.name, sa.my_msg_id, last)
+                old = self.waiting.get(k)
+                if old is None or old[0] != curk:
+                    self.waiting[k] = (curk, self.w.now)
+                elif self.w.now - old[1] > 34.0 and node.stalled_until <= self.w.now:
+                    return self.viol('ike_sa_outlives_its_retransmission_budget', {'state': sa.state.name},
+                                     f'{N}: IKE_SA {sa.my_spi.hex()} has been listed in {sa.state.name} with request {sa.my_msg_id} unanswered for '
+                                     f'{self.w.now - old[1]:.0f} s (the retransmission timeout removes an IKE_SA after about 21 s)')
+        for k in [k for k in self.waiting if k[0] == N and k not in seen]:
+            del self.waiting[k]
         if cur is None or cur['node'] != N:
             return
         # ---- routing of datagrams
